@@ -583,3 +583,14 @@ Definition total_after_hierarchy (g : qgraph) : Prop :=
              walks_total g' /\
              message_total g' /\
              (exists l, set_fair_share (fuel_of g') g' (hierarchy_children g) = Done l).
+
+(** * Non-interference (allocate path restricted to queues): extra Queue objects [e] — malformed
+    or not — next to the graph [g] do not change the eligibility verdict of a job whose own
+    queue chain is well formed in [g], unless one of them names the job's queue as its parent
+    (which turns it into a non-leaf queue). *)
+Definition healthy_unaffected : Prop :=
+  forall (g e : qgraph) (s1 s2 : qid -> bool) (q : qid) (n : nat),
+    nodup_keys (keys (g ++ e)) = true ->
+    steps_to_root g q n ->
+    (forall c, ~ In (c, Some q) e) ->
+    eligible (fuel_of (g ++ e)) (g ++ e) s1 s2 q = eligible (fuel_of g) g s1 s2 q.
